@@ -323,7 +323,7 @@ def run_monitor(cfg, traces, label='mon', workers=4):
                            f'  Mismatch = {cfg.tla_set(cfg.mismatch)}']) + '\n')
     r = vlib.run_tlc('ClusterMon', cp, workers=workers, env={'TRACE_FILE': tf}, timeout=3000, heap='6g')
     if not r.ok:
-        raise MachineryFailure(f'ClusterMon {cfg.name}: {r.error_text[:3000]}')
+        raise MachineryFailure(f'ClusterMon {cfg.name}: rc={r.rc} timed_out={r.timed_out} {r.error_text[:3000] or r.stdout[-1500:]}')
     done = {int(json.loads(l)[2:]) for l in r.stdout.splitlines() if l.startswith('"D ')}
     if done != {t['id'] for t in traces}:
         raise MachineryFailure(f'ClusterMon {cfg.name}: {len(done)} traces completed out of {len(traces)}')
